@@ -288,9 +288,26 @@ class Gen:
                         m = FULL if vi == full_at else SAFE
                     else:
                         m = min(mode, PURE)
-                    args.append(self.int_expr(env, d, m))
+                    if vi >= 1 and self.chance(0.2):
+                        # a later actual that needs several temporaries while earlier parameter slots are already written
+                        args.append(self.temp_hungry(env, r.randint(2, 4), min(m, PURE)))
+                    else:
+                        args.append(self.int_expr(env, d, m))
                 vi += 1
         return args
+
+    def temp_hungry(self, env, n, mode):
+        """x op (y op (z op ...)) with non-leaf right operands everywhere: each level needs a stack temporary."""
+        r = self.r
+        e = ('bin', r.choice('+-'), self.leaf(env, mode), self.leaf(env, mode))
+        for _ in range(n):
+            left = self.leaf(env, mode) if r.random() < 0.6 else ('bin', r.choice('+-'), self.leaf(env, mode), ('bin', '+', self.leaf(env, mode), self.leaf(env, mode)))
+            op = r.choice(['+', '-', '+', '=', '<'])
+            if op in '=<':
+                e = ('bin', '+', ('bin', op, left, e), self.leaf(env, mode)) if r.random() < 0.5 else ('bin', op, left, e)
+            else:
+                e = ('bin', op, left, e)
+        return e
 
     def call_expr(self, env, f, d, mode):
         args = self.actuals(env, f, d, mode)
